@@ -47,12 +47,13 @@ def _reducer_slots(t):
 
 
 def _ev(project):
-    ev = sym.make_evaluator(project, PYR, [PYR + ".pos_parent", PYR + ".pos_children"])
+    ev = sym.make_evaluator(project, PYR, [PYR + ".pos_parent", PYR + ".pos_children"], inline_local=True)   # per-tile "step" helpers included
     ev.static_len = _reducer_slots
     ev.unroll = True
     ev.self_class = PYR + ".Pyramid"      # private helpers of the walk (e.g. a preparation pass moved into a method) are part of it
     ev.no_inline |= {"_make_iter_reducer", "count_operations", "count_leaf_tiles", "count_live_tiles", "_walk_serial", "_walk_parallel",
-                     "_visit_leaves_serial", "_visit_leaves_parallel", "_generator", "walk", "visit_leaves", "subpyramid"}
+                     "_visit_leaves_serial", "_visit_leaves_parallel", "_generator", "walk", "visit_leaves", "subpyramid", "_make_position_filter",
+                     "generate_pos", "_postfix_pos", "is_subtile", "tiles_at_depth", "depth2tiles", "next_highest_power_of_2"}
     return ev
 
 
